@@ -1,9 +1,15 @@
 """C05 - declared errors reach the client as the same error; others become faults.
-(M) ErrorMap.tla model-checked exhaustively (tables of 1-3 declared errors at method/service/API level, shared
-statuses, ErrorResult and user defined types, declared flags x every service outcome and decode failure);
+(M) ErrorMap.tla model-checked: tables of 1-3 declared errors in declaration order, each error declared at any
+non-empty set of levels (method / service / API) with its response in any set of HTTP expressions the DSL accepts
+(method's / service's / API's; the most specific one counts, the others carry a decoy status), on shared or own
+statuses, ErrorResult and user defined types, declared flags; every declared error of a table is returned in turn
+(plain and wrapped), then an undeclared service error / plain error / undecodable request.
+Spaces: base (one level per error, responses on the method), place1 (every placement alone), pair (all ordered
+pairs of placements: exhaustive; quick runs its cut pairq - one pair per ordered pair of resolution paths, rotated by
+the seed - through real code), triple (three errors, TLC simulation).
 (G) every case runs through the real generated server and client; status, goa-error header, body, number of
 WriteHeader calls and the client's error are compared with the model's prediction."""
-import json, os, hashlib
+import json, os, hashlib, concurrent.futures as cf
 from vlib import core, httpgen as hg
 
 DEVS = ["client.single_error_ignores_header"]
@@ -13,8 +19,32 @@ def table_key(t):
     return core.canon(t)
 
 
+DECOY = 422      # ErrorMap!Decoy (every vector carries it; checked in run)
+ORDER = ("method", "service", "api")
+
+
+def innermost(levels):
+    return next(l for l in ORDER if l in levels)
+
+
+def placement(e):
+    """(declaration levels, response levels) of a table entry; entries without them (hand written tables) are
+    declared at `level` with their response in the method's HTTP expression"""
+    return [l for l in ORDER if l in (e.get("decl") or [e["level"]])], [l for l in ORDER if l in (e.get("maps") or ["method"])]
+
+
+def uncompilable(t):
+    # C01 known finding codegen.api_error_user_type: packed apart so that they do not take other tables with them
+    return any(e["type"] == "custom" and placement(e)[0] == ["api"] for e in t)
+
+
 def build(vectors):
-    """one service per distinct error table (service and API level declarations are per service / per design)."""
+    """One service (with one method) per distinct error table.  Error(...) lines go to the method, the service and
+    the API in table order, Response(...) lines to the three HTTP expressions in table order.  API level
+    declarations are per design: an error declared in the API gets a design-wide name (<name>_a<k>) shared by
+    the services that declare it the same way.
+    Returns (designs, where, index): index[table key] -> table number, where[table number] -> binding
+    {design, service, method, names: model name -> name in the design, types: model name -> Go type}."""
     tables, index = [], {}
     for v in vectors:
         k = table_key(v["table"])
@@ -23,73 +53,85 @@ def build(vectors):
             tables.append(v["table"])
     designs, where = [], {}
     per = 12
-
-    def api_sig(t):
-        return core.canon(sorted((e["name"], e["type"], core.canon(e["flags"])) for e in t if e["level"] == "api"))
     groups = {}
     for ti, t in enumerate(tables):
-        groups.setdefault(api_sig(t), []).append(ti)
+        groups.setdefault(uncompilable(t), []).append(ti)
     chunks = []
-    for sig in sorted(groups):
-        g = groups[sig]
-        chunks += [g[i:i + per] for i in range(0, len(g), per)]
+    for g in sorted(groups):
+        chunks += [groups[g][i:i + per] for i in range(0, len(groups[g]), per)]
     for chunk in chunks:
-        d = {"api": {"name": "a%d" % (len(designs) + 1), "errors": []}, "types": [], "services": []}
-        api_declared = set()
+        d = {"api": {"name": "a%d" % (len(designs) + 1), "errors": [], "httpErrors": []}, "types": [], "services": []}
+        api_names = {}      # API level signature of an error -> its name in the design
         for off, ti in enumerate(chunk):
             t = tables[ti]
-            sname = "s%d" % (off + 1)
-            svc = {"name": sname, "errors": [], "methods": []}
-            m = {"name": "m1",
+            sname, mname = "s%d" % (off + 1), "m%d" % (off + 1)
+            svc = {"name": sname, "errors": [], "httpErrors": [], "methods": []}
+            m = {"name": mname,
                  "payload": {"attrs": [{"name": "a1", "type": {"kind": "int"}, "required": True}, {"name": "q1", "type": {"kind": "int"}}]},
                  "result": {"attrs": [{"name": "r1", "type": {"kind": "int"}, "required": True}]},
-                 "errors": [], "http": {"routes": [{"verb": "POST", "path": "/%s/m1" % sname}], "params": {"q1": "q1"},
+                 "errors": [], "http": {"routes": [{"verb": "POST", "path": "/%s/%s" % (sname, mname)}], "params": {"q1": "q1"},
                                         "responses": [{"status": 200}], "errors": []}}
+            bind = {"design": len(designs), "service": sname, "method": mname, "names": {}, "types": {}}
             for e in t:
-                decl = {"name": e["name"]}
+                decl, maps = placement(e)
+                inner = innermost(maps)
+                st = {l: (e["status"] if l == inner else DECOY) for l in maps}
+                name, new_api = e["name"], False
+                if "api" in decl:
+                    sig = core.canon([e["name"], e["type"], e["flags"], st.get("api")])
+                    new_api = sig not in api_names
+                    name = api_names.setdefault(sig, "%s_a%d" % (e["name"], len(api_names) + 1))
+                bind["names"][e["name"]] = name
+                d_ = {"name": name}
                 if e["type"] == "custom":
-                    tn = ("API" if e["level"] == "api" else sname.upper()) + e["name"].upper() + "Err"
+                    tn = ("API" if "api" in decl else sname.upper()) + name.replace("_", "").upper() + "Err"
+                    bind["types"][e["name"]] = tn
                     if not any(x["name"] == tn for x in d["types"]):
                         d["types"].append({"name": tn, "kind": "object", "attrs": [
                             {"name": "msg", "type": {"kind": "string"}, "required": True}, {"name": "code", "type": {"kind": "int"}, "required": True}]})
-                    decl["type"] = {"kind": "user", "ref": tn}
+                    d_["type"] = {"kind": "user", "ref": tn}
                 if e["flags"]["t"]:
-                    decl["timeout"] = True
+                    d_["timeout"] = True
                 if e["flags"]["tmp"]:
-                    decl["temporary"] = True
+                    d_["temporary"] = True
                 if e["flags"]["f"]:
-                    decl["fault"] = True
-                if e["level"] == "method":
-                    m["errors"].append(decl)
-                elif e["level"] == "service":
-                    svc["errors"].append(decl)
-                elif e["name"] not in api_declared:
-                    api_declared.add(e["name"])
-                    d["api"]["errors"].append(decl)
-                m["http"]["errors"].append({"name": e["name"], "status": e["status"]})
+                    d_["fault"] = True
+                if "method" in decl:
+                    m["errors"].append(dict(d_))
+                if "service" in decl:
+                    svc["errors"].append(dict(d_))
+                if new_api:
+                    d["api"]["errors"].append(dict(d_))
+                    if "api" in maps:
+                        d["api"]["httpErrors"].append({"name": name, "status": st["api"]})
+                if "method" in maps:
+                    m["http"]["errors"].append({"name": name, "status": st["method"]})
+                if "service" in maps:
+                    svc["httpErrors"].append({"name": name, "status": st["service"]})
             svc["methods"].append(m)
             d["services"].append(svc)
-            where[ti] = (len(designs), sname)
+            where[ti] = bind
         designs.append(d)
     return designs, where, index
 
 
-def scenario(v, sid, svc):
+def scenario(v, sid, bind):
     o = v["outcome"]
-    base = {"id": sid, "service": svc, "method": "M1", "payload": {"a1": 3, "q1": 4}}
+    svc, meth = bind["service"], bind["method"].upper()
+    base = {"id": sid, "service": svc, "method": meth, "payload": {"a1": 3, "q1": 4}}
     if o["kind"] in ("declared", "wrapped"):
         e = next(x for x in v["table"] if x["name"] == o["name"])
         if e["type"] == "custom":
-            base["outcome"] = {"kind": "error", "errKind": "type", "errType": ("API" if e["level"] == "api" else svc.upper()) + e["name"].upper() + "Err", "value": {"msg": "boom", "code": 7}}
+            base["outcome"] = {"kind": "error", "errKind": "type", "errType": bind["types"][e["name"]], "value": {"msg": "boom", "code": 7}}
         else:
-            base["outcome"] = {"kind": "error", "errKind": "wrapmake" if o["kind"] == "wrapped" else "make", "errName": o["name"], "msg": "boom",
+            base["outcome"] = {"kind": "error", "errKind": "wrapmake" if o["kind"] == "wrapped" else "make", "errName": bind["names"][o["name"]], "msg": "boom",
                                "flags": [e["flags"]["t"], e["flags"]["tmp"], e["flags"]["f"]]}
     elif o["kind"] in ("service", "joined"):
         base["outcome"] = {"kind": "error", "errKind": "service" if o["kind"] == "service" else "joinservice", "errName": o["name"], "msg": "boom", "flags": [o["flags"]["t"], o["flags"]["tmp"], o["flags"]["f"]]}
     elif o["kind"] == "plain":
         base["outcome"] = {"kind": "error", "errKind": "plain", "msg": "boom"}
     else:
-        uri = "/%s/m1" % svc
+        uri = "/%s/%s" % (svc, bind["method"])
         raw = {"method": "POST", "uri": uri, "headers": {"Content-Type": ["application/json"]}, "body": "{\"a1\":3}"}
         if o["name"] == "missing_body":
             raw["body"] = ""
@@ -99,11 +141,11 @@ def scenario(v, sid, svc):
             raw["uri"] = uri + "?q1=abc"
         else:
             raw["headers"]["Content-Type"] = ["text/csv"]
-        base = {"id": sid, "service": svc, "method": "M1", "raw": raw}
+        base = {"id": sid, "service": svc, "method": meth, "raw": raw}
     return base
 
 
-def observe(v, events):
+def observe(v, events, bind=None):
     o = {"status": 0, "goaerr": "none", "bodyname": "none", "bodyflags": None, "writes": None, "cname": "none", "cflags": None, "ckind": "none", "invoked": bool(hg.find(events, "invoke"))}
     wr = hg.find(events, "wire_resp")
     if wr:
@@ -140,6 +182,9 @@ def observe(v, events):
     for bad in ("server_panic", "client_panic"):
         if hg.find(events, bad):
             o["panic"] = bad
+    back = {real: model for model, real in ((bind or {}).get("names") or {}).items()}
+    for k in ("goaerr", "bodyname", "cname"):
+        o[k] = back.get(o[k], o[k])
     return o
 
 
@@ -192,50 +237,147 @@ def compare(v, o):
     return probs
 
 
+def pick(key, seed, below):
+    return hashlib.sha1((key + str(seed)).encode()).digest()[0] < below
+
+
+def stratum(v):
+    """pair space: the resolution paths of the two errors (ErrorMap!Path, emitted with the case) and whether they share their status"""
+    return core.canon([v["paths"], len({e["status"] for e in v["table"]})])
+
+
+def select(ctx, vectors, quick):
+    """the tables that go through real code (all their cases go with them)"""
+    keys = {}
+    for v in vectors:
+        keys.setdefault(table_key(v["table"]), v)
+    chosen = set()
+    strata = {}
+    for k, v in keys.items():
+        sp = v.get("space", "base")
+        if sp == "base":
+            if not quick or pick(k, ctx.seed, 20):
+                chosen.add(k)
+        elif sp == "place1":
+            if not quick or pick(k, ctx.seed, 32):
+                chosen.add(k)
+        elif sp == "pair":
+            strata.setdefault(stratum(v), []).append(k)
+            if pick(k, ctx.seed, 16):
+                chosen.add(k)
+        else:
+            chosen.add(k)      # grown tables: TLC's simulation did the sampling
+    for st in sorted(strata):
+        ranked = sorted(strata[st], key=lambda k: hashlib.sha1((k + str(ctx.seed)).encode()).hexdigest())
+        chosen.update(ranked[:4])
+    ctx.cov["pair_strata"] = len(strata) or len({core.canon(v["paths"]) for v in keys.values() if v.get("space") == "pairq"})
+    return chosen
+
+
 def run(ctx):
     quick = ctx.quick()
     ctx.cov["rule"] = ("cases = (declared error table, service outcome or decode failure) enumerated by TLC from ErrorMap.tla; non-trivial = anything other than "
                        "'a declared ErrorResult error alone on its status'; distinct = canonical JSON")
-    ctx.mc_expect_violation("mc/MC_ErrorMap", consts={"Deviations": '{"server.no_goa_error_header"}'}, label="MC dev")
-    vectors = ctx.gen("mc/MC_ErrorMap", "gen/Gen_ErrorMap.cfg", label="Gen ErrorMap").vectors
-    if quick:
-        vectors = [v for v in vectors if hashlib.sha1((table_key(v["table"]) + str(ctx.seed)).encode()).digest()[0] < 40]
+    ntraces = 16 if quick else 500
+    seed = {"Seed": str(ctx.seed % 10001)}
+    # quick: the cut "pairq" of the pair space (one pair per ordered pair of resolution paths, rotated by the seed) goes through
+    # real code; thorough: the whole pair space is checked and emitted, select() takes several pairs per stratum
+    jobs = [
+        lambda: ctx.mc_expect_violation("mc/MC_ErrorMap", consts={"Deviations": '{"server.no_goa_error_header"}', "Spaces": '{"base"}'}, workers=2, label="MC dev header"),
+        lambda: ctx.mc_expect_violation("mc/MC_ErrorMap", consts={"Deviations": '{"prepare.found_flag_not_reset"}', "Spaces": '{"pair"}'}, workers=2, label="MC dev found"),
+        lambda: ctx.gen("mc/MC_ErrorMap", "gen/Gen_ErrorMap.cfg", label="Gen ErrorMap", workers=8,
+                        consts=dict(seed, Spaces='{"base", "place1", "pairq"}' if quick else '{"base", "place1", "pairq", "pair"}')).vectors,
+        lambda: ctx.gen("mc/MC_ErrorMap", "gen/Gen_ErrorMap.cfg", consts={"Spaces": '{"triple"}'}, simulate=ntraces, depth=20, workers=1, label="Sim ErrorMap triples").vectors,
+        lambda: hg.Pipeline(ctx, "gen-err"),
+    ]
+    with cf.ThreadPoolExecutor(max_workers=len(jobs) + 1) as ex:       # independent TLC runs (distinct labels = distinct scratch directories)
+        futs = [ex.submit(j) for j in jobs]
+        # quick: the whole pair space is model-checked while its cut runs through real code
+        late = ex.submit(lambda: ctx.mc("mc/MC_ErrorMap", consts={"Spaces": '{"pair"}'}, workers=3, label="MC pairs")) if quick else None
+        vectors, grown, pl = [f.result() for f in futs][2:5]
+        real_code(ctx, quick, vectors, grown, pl, ntraces)
+        if late:
+            late.result()
+
+
+def real_code(ctx, quick, vectors, grown, pl, ntraces):
+    if len({table_key(v["table"]) for v in grown}) < ntraces // 2 or any(len(v["table"]) != 3 for v in grown):
+        raise core.Infra("simulation of the triple space gave %d cases over %d tables" % (len(grown), len({table_key(v['table']) for v in grown})))
+    vectors = list({core.canon([v["table"], v["outcome"]]): v for v in vectors + grown}.values())
+    if any(v.get("decoy") != DECOY for v in vectors):
+        raise core.Infra("ErrorMap!Decoy differs from checks/c05.py DECOY")
+    spaces = {}
+    for v in vectors:
+        spaces.setdefault(v["space"], set()).add(table_key(v["table"]))
+    ctx.cov["table_space"] = {k: len(x) for k, x in sorted(spaces.items())}
+    chosen = select(ctx, vectors, quick)
+    vectors = [v for v in vectors if table_key(v["table"]) in chosen]
+    # every declared error of a chosen table is returned by the stub at least once
+    returned = {}
+    for v in vectors:
+        if v["outcome"]["kind"] in ("declared", "wrapped"):
+            returned.setdefault(table_key(v["table"]), set()).add(v["outcome"]["name"])
+    for v in vectors:
+        if returned.get(table_key(v["table"]), set()) != {e["name"] for e in v["table"]}:
+            raise core.Infra("table without a call for every declared error: %s" % json.dumps(v["table"]))
     designs, where, index = build(vectors)
-    pl = hg.Pipeline(ctx, "gen-err")
     pl.prepare(designs)
     bins = pl.build_runners(designs)
-    ctx.log("%d vectors, %d tables, %d designs (%d unusable), %d methods set aside" % (len(vectors), len(index), len(designs), len(pl.failed), len(pl.bad_methods)))
+    ctx.log("%d vectors, %d tables %s, %d designs (%d unusable), %d methods set aside" % (
+        len(vectors), len(index), json.dumps({k: len(x & chosen) for k, x in sorted(spaces.items())}), len(designs), len(pl.failed), len(pl.bad_methods)))
     for i, f in list(pl.failed.items())[:5]:
         ctx.notes.append("design %d unusable: %s" % (i, str(f)[:600]))
     for k, diag in list(pl.bad_methods.items())[:10]:
         ctx.notes.append("method %s set aside (does not compile, see C01): %s" % (k, diag))
+    # tables lost to generation / compilation are C01's business (known there: a user type error declared at the API level
+    # only); they are listed, and losing many others means this check cannot do its job
+    all_tables = {table_key(v["table"]): v["table"] for v in vectors}.values()
+    lost = [t for t in all_tables if not uncompilable(t) and (where[index[table_key(t)]]["design"] in pl.failed or
+                                                            (where[index[table_key(t)]]["design"], where[index[table_key(t)]]["method"]) in pl.bad_methods)]
+    ctx.cov["tables_lost"] = len(lost)
+    for t in lost[:5]:
+        ctx.notes.append("table not generated/compiled (see C01): %s" % json.dumps(t))
+    if len(lost) * 4 > len(all_tables):
+        raise core.Infra("%d of %d error tables could not be generated/compiled: %s" % (len(lost), len(all_tables), list(pl.failed.items())[:2]))
     scen, meta = {}, {}
     for n, v in enumerate(vectors):
-        di, svc = where[index[table_key(v["table"])]]
-        if di in pl.failed:
+        bind = where[index[table_key(v["table"])]]
+        di = bind["design"]
+        if di in pl.failed or (di, bind["method"]) in pl.bad_methods:
             continue
         sid = "c%d" % n
-        scen.setdefault(di, []).append(scenario(v, sid, svc))
-        meta[sid] = v
+        scen.setdefault(di, []).append(scenario(v, sid, bind))
+        meta[sid] = (v, bind)
     events = pl.run_all(bins, scen)
-    nontrivial = set()
-    for sid, v in meta.items():
+    nontrivial, per_space, paths_seen = set(), {}, set()
+    for sid, (v, bind) in meta.items():
         ctx.cov["evaluations"] += 1
         t, out = v["table"], v["outcome"]
-        trivial = out["kind"] == "declared" and len(t) == 1 and t[0]["type"] == "result"
+        per_space[v["space"]] = per_space.get(v["space"], 0) + 1
+        trivial = out["kind"] == "declared" and len(t) == 1 and t[0]["type"] == "result" and placement(t[0])[1] == ["method"]
         if not trivial:
             nontrivial.add(core.canon([t, out]))
-        o = observe(v, events[sid])
+        if sid not in events:
+            raise core.Infra("no events for scenario %s" % sid)
+        o = observe(v, events[sid], bind)
         probs = compare(v, o)
+        where_ = ""
+        if out["kind"] in ("declared", "wrapped"):
+            i = next(i for i, e in enumerate(t) if e["name"] == out["name"])
+            where_ = "/" + "-".join(v["paths"][i])
+            if len(t) > 1:
+                paths_seen.add(core.canon([v["paths"], i]))
         for p in probs:
             shared = len({e["status"] for e in t}) < len(t)
-            ctx.violation("C05/%s/%s/%s" % (out["kind"], "shared-status" if shared else "own-status", p),
+            ctx.violation("C05/%s/%s%s/%s" % (out["kind"], "shared-status" if shared else "own-status", where_, p),
                           "%s: table %s outcome %s -> %s" % (p, json.dumps(t), json.dumps(out), json.dumps({k: o[k] for k in o if k != "body"})[:500]),
-                          {"vector": v, "observed": o, "events": events[sid]})
+                          {"vector": v, "binding": bind, "observed": o, "events": events[sid]})
         if not probs and ctx.cov["evaluations"] % 600 == 1:
             ctx.sample({"table": t, "outcome": out, "observed": {k: o[k] for k in ("status", "goaerr", "bodyname", "cname", "ckind", "writes")}})
     ctx.cov["distinct_nontrivial"] = len(nontrivial)
     ctx.cov["designs"] = len(designs)
+    ctx.cov["evaluations_per_space"] = per_space
+    ctx.cov["declared_error_positions_observed"] = len(paths_seen)
 
 
 def replay(ctx, rp):
